@@ -51,7 +51,8 @@ claim("C08", "DESIGN.md 5/C08", "Lean 4 theorems (threshold map, inverse, monoto
       "each CvtToFuzzy variant is definitionally the clamp of its Normalize counterpart; curveAt_interior / curveAt_above / normalizeCurve_spec: for distinct raw values the sorted control points are strictly "
       "increasing and every cell lies on the line through the two consecutive points around it (flat beyond the ends), shape and missing cells kept. normalizeZScore_spec / lin_zscore / meanL_eq / varL_eq: the z-score map uses the mean and "
       "population variance of the non-missing cells and sends each cell to the threshold line at its z-score, limited to the range (for any deviation function sqrt with sqrt var != 0; that the driver's sqrt is the square root is not proved). "
-      "Mean-to-mid control points and curve-by-z-score are tied by correspondence and reference oracles only: partial for those.",
+      "mtmStats_spec / meanToMid_spec / curveZScore_spec: the mean-to-mid and curve-by-z-score commands return the piecewise-linear curve through the control points derived from the five statistics (minimum, maximum, mean, mean of the lower and of the upper part; zeros ignored or not) "
+      "resp. from mean + z x deviation; cvtToFuzzy_meanToMid_curveZ_eq_clamp. On the implementation, on inputs that are binary fractions the conversions must return the exact value wherever it is one (thresholds to exactly +1 / -1 for every span 1-130).",
       TB + "z-score commands depend on sqrt: model parameter, driver instance = 20-digit rational root; cases within 1e-9 of a data-derived discontinuity are skipped and counted.")
 claim("C09", "DESIGN.md 5/C09", "Lean 4 heap-model theorems (execH_preserves, execH_refines) + before/after snapshots of every live array around every real execute",
       "Heap model execH makes aliasing (single-input Minimum/Maximum/FuzzyOr/FuzzyAnd return the input object) and the in-place clamp explicit. Theorem execH_preserves: one "
